@@ -52,7 +52,7 @@ TECHNIQUE = ('Coq proof (induction over arbitrary walk trees / lexicographic pro
 LEVEL_TEXT = ('Theorems over the Gallina model of TileWalker._walk / SeedProgress for every walk tree, every old progress '
               'identifier, every crash index and every persisted report (resume_covers, also for chains of interruptions), '
               'strict-order properties of can_skip, soundness of the geometric walk for every grid, meta size, level list '
-              'and monotone coverage predicate (walk_sound_partial), walk_completes: no _walk call of a task on a well-formed '
+              'and every coverage predicate that is monotone under overlap (walk_sound; the geometric fact selected_meta_tiles_overlap is proved; closed for bbox / multi-bbox coverages: walk_sound_bbox_coverages; walk_within_start_rectangle for every coverage and skip_geoms), walk_completes: no _walk call of a task on a well-formed '
               'grid with sorted valid levels raises (holds since the repair of finding C11-sliver); completeness of the selection: walk_complete_chain and walk_complete_interior (points at least '
               '1/10 pixel inside the traversed rectangles) and walk_complete_nested (pyramids whose resolutions are integer multiples: no interiority with respect to tiles) are proved; tied to mapproxy/seed/seeder.py, seed/util.py and grid.py MetaGrid by '
               'running the real walker on generated tasks and comparing event traces with the model evaluated by vm_compute.')
@@ -738,6 +738,12 @@ def gen_real_spec(rng):
     elif kind == 'poly':
         cov = {'type': 'poly', 'srs': csrs, 'holes': [],
                'shell': [[cx, cy], [cx + w, cy + h * 0.2], [cx + w * 0.7, cy + h], [cx + w * 0.1, cy + h * 0.6]]}
+        if int(abs(cx) * 1000.0) % 2 == 0:
+            # every second polygon has an interior ring (the shell shrunk towards the mean of its vertices); decided without
+            # a draw of its own so that the rest of the stream is the same as without holes
+            sh = cov['shell']
+            mx_, my_ = sum(p[0] for p in sh) / 4.0, sum(p[1] for p in sh) / 4.0
+            cov['holes'] = [[[mx_ + (p[0] - mx_) * 0.5, my_ + (p[1] - my_) * 0.5] for p in sh]]
     else:
         cov = {'type': 'multi', 'parts': [
             {'type': 'bbox', 'bbox': [cx, cy, cx + w * 0.4, cy + h * 0.5], 'srs': csrs},
@@ -903,6 +909,10 @@ class TaskCheck(object):
         else:
             self.oracle_selection(U, geo, exact)
             self.oracle_footprint(U, geo)
+            try:
+                self.oracle_holes(U, geo)
+            except Exception as e:  # noqa
+                ctx.problem('harness', 'hole oracle raised %r' % (e,), {'task': spec})
             runs += self.interruptions(U)
         self.emit_cases(runs, table, U, exact)
 
@@ -1123,6 +1133,73 @@ class TaskCheck(object):
                          {'task': spec, 'tile': t, 'point': p, 'footprint_bbox': E,
                           'walked_bbox': list(self.task.coverage.extent.bbox_for(self.grid.srs))})
                 return
+
+    def oracle_holes(self, U, geo):
+        """nothing else, for polygon coverages with interior rings (also given in another SRS than the grid), independent
+        of mapproxy.util.geom / coverage: every interior ring is brought into the grid SRS point by point with pyproj, once
+        vertex by vertex (what a vertex-wise transformation yields) and once densely sampled along its edges (its true
+        image).  A processed meta tile whose rectangle lies inside BOTH images of one ring, each shrunk by a margin, lies in
+        the hole of the coverage under either reading: it does not touch the coverage and must not be handed over."""
+        ctx, spec = self.ctx, self.spec
+        c = spec['cov']
+        if c['type'] != 'poly' or not c.get('holes') or spec.get('skip', 0) != 0:
+            return
+        import shapely.geometry
+        code = 'EPSG:%s' % c['srs']
+        tr = None
+        if code != self.grid.srs.srs_code:
+            import pyproj
+            tr = pyproj.Transformer.from_crs(code, self.grid.srs.srs_code, always_xy=True)
+
+        def to_grid(points):
+            if tr is None:
+                return [(float(x), float(y)) for x, y in points]
+            xs, ys = tr.transform([float(p[0]) for p in points], [float(p[1]) for p in points])
+            return list(zip(xs, ys))
+        shrunk = []
+        for ring in c['holes']:
+            ring = [tuple(p) for p in ring]
+            if ring[0] == ring[-1]:
+                ring = ring[:-1]
+            dense = []
+            for i, a in enumerate(ring):
+                b = ring[(i + 1) % len(ring)]
+                dense.extend((a[0] + (b[0] - a[0]) * j / 64.0, a[1] + (b[1] - a[1]) * j / 64.0) for j in range(64))
+            both = []
+            for pts in (to_grid(ring), to_grid(dense)):
+                if any(v != v or abs(v) > 1e12 for p in pts for v in p):
+                    both = None
+                    break
+                g = shapely.geometry.Polygon(pts)
+                if not g.is_valid or g.area <= 0:
+                    both = None
+                    break
+                both.append(g.buffer(-0.01 * math.sqrt(g.area)))
+            if both and not any(g.is_empty for g in both):
+                shrunk.append(both)
+        if not shrunk:
+            return
+        pset = set()
+        for call in U.calls():
+            if call and all(geo.valid(t) for t in call):
+                pset.add(geo.main_of(call))
+        inside = []
+        for t in sorted(pset):
+            r = [float(v) for v in geo.meta_rect(t)]
+            box = shapely.geometry.box(*r)
+            if any(a.contains(box) and b.contains(box) for a, b in shrunk):
+                inside.append(t)
+        ctx.count('hole_coverages_checked')
+        ctx.count('cov_holes=%s' % ('other_srs' if tr is not None else 'grid_srs'))
+        if inside:
+            t = inside[0]
+            ctx.fail('processed-inside-coverage-hole',
+                     '%d of the %d meta tiles handed to the workers lie completely inside an interior ring (hole) of the polygon '
+                     'coverage given in %s (ring brought into the grid SRS %s point by point with pyproj, shrunk by 1 %%), e.g. %r with '
+                     'rectangle %r; the task coverage the walker used has area %.6g'
+                     % (len(inside), len(pset), code, self.grid.srs.srs_code, t, [round(float(v), 3) for v in geo.meta_rect(t)],
+                        getattr(getattr(self.task.coverage, 'geom', None), 'area', float('nan'))),
+                     {'task': spec, 'tile': t, 'tiles_in_hole': inside[:10], 'holes': c['holes']})
 
     def same_srs(self):
         def srs_of(c):
@@ -1404,16 +1481,26 @@ def pool_cases(ctx):
     import logging
     logging.getLogger('mapproxy.seed.seeder').setLevel(logging.ERROR)      # 'no workers left, stopping' is expected here
     terms, descs = [], []
-    for _ in range(ctx.n(40, 300)):
-        nfull = rng.choice([0, 0, 1, 2, 5])
-        alive = [rng.random() < 0.7 for _ in range(rng.randrange(1, 4))]
-        if rng.random() < 0.2:
-            alive = [False] * len(alive)
+    # fixed schedules first (independent of the seed): queue full once / several times with one, some, all workers alive
+    fixed = [(1, [True]), (1, [False, True]), (3, [True, True]), (2, [True, False, False]), (1, [False]), (0, [True]),
+             (6, [False, False, True])]
+    for it in range(-len(fixed), ctx.n(40, 300)):
+        if it < 0:
+            nfull, alive = fixed[it + len(fixed)]
+            alive = list(alive)
+            tiles = [(it + len(fixed), 2, 3), (it + len(fixed) + 1, 2, 3)]
+        else:
+            nfull = rng.choice([0, 0, 1, 2, 5])
+            alive = [rng.random() < 0.7 for _ in range(rng.randrange(1, 4))]
+            if rng.random() < 0.2:
+                alive = [False] * len(alive)
+            tiles = None
         pool = sd.TileWorkerPool.__new__(sd.TileWorkerPool)
         pool.tiles_queue = FakeQueue(['full'] * nfull)
         pool.task, pool.dry_run, pool.progress_logger = None, False, None
         pool.procs = [FakeProc(a) for a in alive]
-        tiles = [(rng.randrange(9), rng.randrange(9), 3)]
+        if tiles is None:
+            tiles = [(rng.randrange(9), rng.randrange(9), 3)]
         try:
             pool.process(tiles, None)
             outcome = 'returned'
